@@ -211,7 +211,7 @@ namespace cnl {
             if (is_decimal || offset + 1 >= num_non_separators) {
                 static_assert(std::numeric_limits<int32_t>::digits10 == 9);
                 auto const num_digits{num_non_separators};
-                return scan_msb(str, is_negative, 10, 18, offset, (num_digits * 3322 + 678) / 1000, num_digits, num_fractional_digits);
+                return scan_msb(str, is_negative, 10, 18, offset, (num_digits * 3322 + 999) / 1000, num_digits, num_fractional_digits);
             }
             switch (str[offset + 1]) {
             case 'B':
